@@ -20,3 +20,12 @@ impl Clone for NetworkFilter {
     #[verifier::external_body]
     fn clone(&self) -> (r: Self) ensures r == *self { unimplemented!() }
 }
+
+// FilterPart::string_view (`s.join("|")` for AnyOf): T — the joined text is uninterpreted
+pub uninterp spec fn joined_spec(v: Seq<String>) -> String;
+impl FilterPart {
+    #[verifier::external_body]
+    pub fn string_view(&self) -> (r: Option<String>)
+        ensures r == (match *self { FilterPart::Empty => None::<String>, FilterPart::Simple(s) => Some(s), FilterPart::AnyOf(v) => Some(joined_spec(v@)) })
+    { unimplemented!() }
+}
